@@ -125,6 +125,12 @@ pub fn schedule(max_len: usize) -> BoxedStrategy<Schedule> {
         4 => (0u8..28u8).prop_map(|t| Policy::Walk { stay: 247, target: Some(t), stay_target: 100 }),
         2 => Just(Policy::Walk { stay: 239, target: Some(crate::rt::TARGET_PAYLOAD), stay_target: 40 }),
         6 => (any::<[u8; MAX_THREADS]>(), vec(0u32..600u32, 1..=4)).prop_map(|(prio, change)| Policy::Pct { prio: prio.to_vec(), change }),
+        // a thread held in the middle of a handle-population call (2) or of a send/receive (1)
+        // while everybody else runs on
+        2 => (1u8..=8, 0..POPULATION_CALLS.len(), 0u8..48, prop_oneof![Just(223u8), Just(247u8)])
+            .prop_map(|(victim, k, nth, stay)| Policy::StallCall { victim, kind: POPULATION_CALLS[k], nth, stay }),
+        1 => (1u8..=8, 0..TRAFFIC_CALLS.len(), 0u8..24, prop_oneof![Just(223u8), Just(247u8)])
+            .prop_map(|(victim, k, nth, stay)| Policy::StallCall { victim, kind: TRAFFIC_CALLS[k], nth, stay }),
     ];
     (policy, vec(any::<u8>(), 0..max_len))
         .prop_map(|(policy, bytes)| Schedule { policy, bytes })
@@ -143,6 +149,26 @@ pub fn stall_schedule(max_len: usize) -> BoxedStrategy<Schedule> {
         .prop_map(|(victim, nth, stay, bytes)| Schedule { policy: Policy::Stall { victim, nth, stay }, bytes })
         .boxed()
 }
+
+/// random walk in which one thread is suspended at one of the first scheduling points of its
+/// first call of one kind (`kinds`: CallKind codes to choose from) until nobody else can make
+/// progress, and then finishes the call on what it had read before
+pub fn stall_call_schedule(max_len: usize, kinds: &'static [u8]) -> BoxedStrategy<Schedule> {
+    (
+        prop_oneof![3 => Just(1u8), 3 => Just(2u8), 4 => 3u8..=8u8],
+        0..kinds.len(),
+        0u8..48,
+        prop_oneof![Just(223u8), Just(247u8)],
+        vec(any::<u8>(), 0..max_len),
+    )
+        .prop_map(move |(victim, k, nth, stay, bytes)| Schedule { policy: Policy::StallCall { victim, kind: kinds[k], nth, stay }, bytes })
+        .boxed()
+}
+
+/// CallKind codes: AddStream, CloneRx, DropRx, UnsubRx, IntoSingle, IntoMulti, CloneTx, DropTx
+pub const POPULATION_CALLS: &[u8] = &[14, 14, 14, 15, 16, 16, 17, 18, 19, 4, 5];
+/// TrySend, TryRecv, Recv, TryView, RecvView, Poll, StartSend
+pub const TRAFFIC_CALLS: &[u8] = &[1, 7, 8, 9, 10, 13, 2];
 
 // ---- sequential histories (E2) ------------------------------------------------------------
 
@@ -747,7 +773,12 @@ pub fn addstream_plan() -> BoxedStrategy<AddStreamPlan> {
         vec(drain_how(), 5),
         prop_oneof![3 => Just(false), 1 => Just(true)],
         (prop_oneof![2 => Just(0u8), 1 => Just(1u8), 1 => Just(2u8)], prop_oneof![2 => Just(0u8), 1 => Just(1u8), 1 => Just(2u8)]),
-        (prop_oneof![5 => Just(None), 1 => (0u8..3, any::<bool>()).prop_map(Some)], schedule(500)),
+        (
+            prop_oneof![5 => Just(None), 1 => (0u8..3, any::<bool>()).prop_map(Some)],
+            // one case in four: a thread is held at one of the first points of its add_stream call
+            // while everybody else runs on (after round-6 seed C01-6)
+            prop_oneof![3 => schedule(500), 1 => stall_call_schedule(500, &[14])],
+        ),
     )
         .prop_map(|(q, prefill, producers, parent_handles, pre_recv, adder_single, sibling_pre, other_stream, hows, second_add, side_adds, (lonely, sched))| AddStreamPlan {
             q,
